@@ -44,6 +44,7 @@ def mix(*parts):
 
 
 SWEEP_MAX_STEPS = 450
+SWEEP_FLAGGED_MAX_STEPS = 800  # programs generated for a sweep ("sweep": true) are swept in the quick tier too
 
 
 def pick_strategy(rng):
@@ -66,6 +67,8 @@ def schedules(scn, program, rng):
     places its change points uniformly inside that length.
     """
     desc = pick_strategy(rng)
+    if program.get("sweep") and desc[0] != "pct":
+        desc = ["pct", 1, mix("sweep", rng.getrandbits(48)) & 0xFFFFFFFFFFFF]
     cseed = rng.getrandbits(48)
     pzero = rng.choice([0.3, 0.6, 0.9])
 
@@ -80,7 +83,7 @@ def schedules(scn, program, rng):
     s, viol, stats = scn.run(program, core.PCT(prio_seed, []), chooser())
     yield ["pct", 0, prio_seed, []], s, viol, stats
     n = max(2, s.step)
-    if getattr(scn, "tier", "quick") == "thorough" and n <= SWEEP_MAX_STEPS and rng.random() < 0.08:
+    if n <= (SWEEP_FLAGGED_MAX_STEPS if program.get("sweep") else SWEEP_MAX_STEPS) and (program.get("sweep") or (getattr(scn, "tier", "quick") == "thorough" and rng.random() < 0.08)):
         # thorough tier, short run: *every* single pre-emption point under these priorities, not a sample of them
         for k in range(1, n):
             s, viol, stats = scn.run(program, core.PCT(prio_seed, [k]), chooser())
